@@ -382,6 +382,10 @@ func (r *replayer) run(bin, entryRel, setup string, rc *replayCase, file string,
 	ctx, cancel := context.WithTimeout(context.Background(), timeout)
 	defer cancel()
 	cmd := exec.CommandContext(ctx, bin, "-test.run", "^TestVerifReplay$", "-test.timeout", "0")
+	if n, ok := rc.Params["NCPU"]; ok && n > 0 {
+		// the engine models runtime.NumCPU() == NCPU; natively the same value is obtained with a CPU affinity mask
+		cmd = exec.CommandContext(ctx, "taskset", "-c", fmt.Sprintf("0-%d", n-1), bin, "-test.run", "^TestVerifReplay$", "-test.timeout", "0")
+	}
 	cmd.Dir = filepath.Join(r.p.repo, entryRel)
 	cmd.Env = append(os.Environ(), "VERIF_REPLAY="+file, "VERIF_SETUP="+setup)
 	out, err := cmd.CombinedOutput()
